@@ -294,6 +294,15 @@ func (s *Sched) loop() {
 				return
 			}
 			if !s.fireNext() {
+				// virtual time cap: say who was still waiting (a scenario that should have
+				// finished long before can judge this as "a call never returned")
+				var w []string
+				for _, t := range s.threads {
+					if t.state == tsBlocked {
+						w = append(w, fmt.Sprintf("thread %d (%s) blocked on %s", t.id, t.name, t.waitOn))
+					}
+				}
+				s.res.Horizon += "; " + strings.Join(w, "; ")
 				return
 			}
 			continue
